@@ -164,6 +164,25 @@ def case_strategy(draw, shard):
             stor = ["dense"]
         case["storage"] = draw(st.sampled_from(stor))
     case["init"] = None
+    if kind == "scalar" and solver in ("AndersonCD", "ProxNewton", "GramCD") and draw(st.integers(0, 2)) == 0:
+        # warm start, with a non-zero coefficient sitting on an all-zero column when there is one: a converged fit
+        # must still bring it back to exactly zero
+        nvar = n if fam == "QuadraticSVC" else p
+        fi_ = bool(case["solver"].get("fit_intercept", False)) and solver != "GramCD"
+        init = draw(P.start_point(nvar, fi_, pen, case["penalty"]))
+        if init is not None:
+            Xe = (np.array(case["y"])[:, None] * X).T if fam == "QuadraticSVC" else X
+            nulls = [j for j in range(Xe.shape[1]) if not Xe[:, j].any()]
+            if nulls and draw(st.booleans()):
+                j0 = nulls[draw(st.integers(0, len(nulls) - 1))]
+                v = draw(gen.real(-1, 0, zero=0.))
+                if case["penalty"].get("positive") or pen in ("IndicatorBox", "PositiveConstraint"):
+                    v = abs(v)
+                if pen == "IndicatorBox":
+                    v = min(v, case["penalty"]["alpha"])
+                init["w"][j0] = v
+                init["kind"] = init["kind"] + "+null-column"
+            case["init"] = init
     return case
 
 
@@ -204,6 +223,14 @@ def check_case(case):
         return result(viol, True, classes)
     nf_stop = ran and n_iter >= 1 and not math.isfinite(out.stop)
     nf_obj = not np.all(np.isfinite(out.obj))
+    if (nf_stop or nf_obj) and case.get("init") is not None:
+        # a user-supplied start whose loss already overflows (|eta| > 709 on badly scaled columns): an infinite first
+        # history entry / criterion is the truth about that point, not a blow-up
+        from .c03 import start_point, F_of
+        with np.errstate(all="ignore"):
+            if not math.isfinite(F_of(case, start_point(case))):
+                classes.append("loss-overflows-at-start")
+                nf_stop = nf_obj = False
     wild = c01.wild_newton_step(case, None) if (nf_stop or nf_obj) and solver in ("ProxNewton", "GroupProxNewton") else False
     if nf_stop:
         viol.append(Viol(dict(sig, kind="non-finite", what="stop_crit", wild_newton_step=wild), f"{solver} on {case['flags']} returned stop_crit={out.stop!r} after {n_iter} iterations"))
@@ -220,9 +247,20 @@ def check_case(case):
         if wts is not None and wts[j] == 0:
             continue
         wj = w[j]
-        if np.any(wj != 0):
+        if np.any(wj != 0) and case.get("init") is None:
             viol.append(Viol(dict(sig, kind="nonzero-on-null-column"), f"{solver}: penalised coefficient on all-zero column {j} is {np.asarray(wj).tolist()!r} (cold start)"))
             break
+        if np.any(wj != 0) and case.get("init") is not None and not (out.stop <= case["solver"]["tol"]) and pen_spec["name"] in ("L1", "WeightedL1", "L1_plus_L2") \
+                and case["solver"].get("max_iter", 0) >= 20 and case["solver"].get("max_epochs", case["solver"].get("max_pn_iter", 1000)) >= 100:
+            # warm start, run not converged: no claim by itself.  Differential: the same solver, same budget, on the other
+            # storage format converges and has the exact zero there
+            other = "csc" if case["storage"] == "dense" else "dense"
+            o2 = P.run(dict(case, storage=other))
+            if o2.exc is None and o2.w is not None and o2.stop <= case["solver"]["tol"] and not np.any(np.asarray(o2.w)[j] != 0):
+                viol.append(Viol(dict(sig, kind="nonzero-on-null-column", warm=True, sibling=other),
+                                 f"{solver} [{case['storage']}]: warm-started penalised coefficient on all-zero column {j} is still {np.asarray(wj).tolist()!r} after the "
+                                 f"full budget (stop_crit={out.stop:.2e} > tol) while the same solver on {other} storage converges with an exact zero there"))
+                break
     if pen_spec["name"] == "WeightedGroupL2":
         for g, idx in enumerate(pen_spec["groups"]):
             if pen_spec["weights"][g] > 0 and not X[:, idx].any() and np.any(w[idx] != 0):
